@@ -93,7 +93,8 @@ def gen_blocks(r, depth=0, plain=False, n=None, in_item=False):
         elif k < 0.46:
             b = ("heading", r.randint(1, 6), gen_inlines(r, 0, plain, breaks=False))
         elif k < 0.54:
-            body = "".join(r.choice(["code line\n", "  indented\n", "*not em*\n", "<b>&amp;\n", "\\n\n", "# no\n", "- no\n", "> no\n", "\n", "code  \n"]) for _ in range(r.choice([0, 1, 1, 2, 2, 3])))     # (also an empty block)
+            body = "".join(r.choice(["code line\n", "  indented\n", "*not em*\n", "<b>&amp;\n", "\\n\n", "# no\n", "- no\n", "> no\n", "\n", "code  \n", "\n\n", "a\n\n\nb\n", "\n\n\n"])
+                           for _ in range(r.choice([0, 1, 1, 2, 2, 3, 4])))     # (also an empty block; runs of blank lines inside the code)
             b = ("fenced", r.choice(["```", "~~~", "````"]), r.choice(["", "", "python", "c"]), body)
         elif k < 0.58:
             b = ("hr",)
